@@ -383,4 +383,33 @@ theorem IsEigTriple.eigenvalue_iff {A : Matrix (Fin 3) (Fin 3) ℝ} {w : Princip
   simp only [Polynomial.eval_mul, Polynomial.eval_sub, Polynomial.eval_X, Polynomial.eval_C,
     mul_eq_zero, sub_eq_zero, or_assoc]
 
+/-! ### a superposed hydrostatic pressure (used to delimit the tie set of the sign indicators) -/
+
+/-- the tensor with a hydrostatic pressure `p` superposed (every normal component lowered by `p`) -/
+def hydroShift (p : ℝ) (v : Voigt ℝ) : Voigt ℝ :=
+  ⟨v.s11 - p, v.s22 - p, v.s33 - p, v.s12, v.s13, v.s23⟩
+
+def shiftW (p : ℝ) (w : Principal ℝ) : Principal ℝ := ⟨w.w0 - p, w.w1 - p, w.w2 - p⟩
+
+theorem tensor_hydroShift (p : ℝ) (v : Voigt ℝ) :
+    tensor (hydroShift p v) = tensor v - Matrix.scalar (Fin 3) p := by
+  ext i j; fin_cases i <;> fin_cases j <;> simp [tensor, hydroShift, Matrix.scalar_apply]
+
+open Polynomial in
+/-- subtracting `p` times the unit matrix lowers every member of the ascending eigenvalue triple by `p` -/
+theorem IsEigTriple.sub_scalar {A : Matrix (Fin 3) (Fin 3) ℝ} {w : Principal ℝ}
+    (h : IsEigTriple A w) (p : ℝ) : IsEigTriple (A - Matrix.scalar (Fin 3) p) (shiftW p w) := by
+  obtain ⟨h1, h2, h3⟩ := h
+  refine ⟨by simp only [shiftW]; linarith, by simp only [shiftW]; linarith, ?_⟩
+  rw [Matrix.charpoly_sub_scalar, h3]
+  simp only [shiftW, mul_comp, sub_comp, X_comp, C_comp, C_sub]
+  ring
+
+/-- pure shear `τ` in the 1-2 plane has the principal stresses `-τ, 0, τ` -/
+theorem pureShear_eigTriple (τ : ℝ) (hτ : 0 ≤ τ) :
+    IsEigTriple (tensor ⟨0, 0, 0, τ, 0, 0⟩) ⟨-τ, 0, τ⟩ := by
+  refine ⟨by simp only; linarith, hτ, ?_⟩
+  simp [Matrix.charpoly, Matrix.charmatrix, Matrix.det_fin_three, tensor]
+  ring
+
 end PylifeVerif.Equistress
